@@ -1,7 +1,10 @@
 /* The REAL src/cbor/internal/memory_utils.c compiled with a narrow size_t (NARROW_BITS = 8 or 16): every operand pair
  * (8 bits: all 65,536; 16 bits: boundary grid) through every function, results logged for TLC.
  * Built stand-alone (not linked with libcbor): cc -DNARROW_BITS=8 -I<repo>/src h_narrow.c */
+#include <assert.h>
+#include <limits.h>
 #include <stdbool.h>
+#include <stddef.h>
 #include <stdint.h>
 #include <stdio.h>
 #include <stdlib.h>
@@ -26,12 +29,13 @@ static void* narrow_realloc(void* p, vsize_t n) { (void)p; r_called = 1; r_req =
 #endif
 #endif
 /* keep the library's headers out, supply what memory_utils.c needs from them */
-#define LIBCBOR_MEMORY_UTILS_H
-#define LIBCBOR_COMMON_H
+#define LIBCBOR_COMMON_H          /* (memory_utils.c includes its own header, which then declares everything with the narrow size_t) */
 #define _CBOR_NODISCARD
 #define _cbor_malloc narrow_malloc
 #define _cbor_realloc narrow_realloc
 #define size_t vsize_t
+#undef SIZE_MAX
+#define SIZE_MAX ((vsize_t)-1)      /* the largest value of the narrow size_t */
 #include "cbor/internal/memory_utils.c"
 #undef size_t
 
